@@ -38,7 +38,9 @@ META = {
     "technique": "TLA+ function specification (CInt/CLit), TLC-enumerated cases replayed into cppcheck --dump, TLC-computed verdict, clang second witness",
 }
 
-QUICK_PLATFORMS = ["native", "win64", "gen16"]
+# quick: LP64 in both languages, LLP64 in C++, the generated 16-bit-int platform file in C
+QUICK_SHARDS = [("native", "c"), ("native", "c++"), ("win64", "c++"), ("gen16", "c")]
+TIER = ["quick"]
 ALL_PLATFORMS = ["native", "unix32", "unix64", "win32A", "win32W", "win64", "gen16", "genarm", "genilp64"]
 SPEC_ONLY = {"genilp64"}
 LANGS = ["c", "c++"]
@@ -90,21 +92,21 @@ def run_shard(args):
 
 
 def group_violations(shards):
-    """One violation per (platform, language, rule): the key pins the exact set of failing expressions and the values
+    """One violation per (platform, language, stratum): the key pins the exact set of failing expressions and the values
     cppcheck reported, so a known finding tolerates exactly that set."""
     groups = {}
     for sh in shards:
         for n in sh["notable"]:
             if n["verdict"] == "violation":
-                groups.setdefault((sh["plat"], sh["lang"], n["rule"]), []).append(n)
+                groups.setdefault((sh["plat"], sh["lang"], n["kind"]), []).append(n)
     out = []
     for (plat, lang, rule), rows in sorted(groups.items()):
         rows.sort(key=lambda r: r["expr"])
         dg = vlib.digest([[r["expr"], r["got"]] for r in rows])
         key = "%s:%s:%s:n%d:%s" % (plat, lang, rule, len(rows), dg)
         ex = rows[0]
-        payload = {"platform": plat, "lang": lang, "rule": rule, "key": key,
-                   "cases": [{"expr": r["expr"], "expected": r["expected"], "cppcheck": r["got"]} for r in rows]}
+        payload = {"platform": plat, "lang": lang, "rule": rule, "key": key, "tier": TIER[0],
+                   "cases": [{"expr": r["expr"], "class": r["rule"], "expected": r["expected"], "cppcheck": r["got"]} for r in rows]}
         p = vlib.save_replay(PID, "%s-%s-%s" % (plat, "cxx" if lang == "c++" else "c", rule), payload)
         out.append({"key": key, "replay": p,
                     "what": "%d constant expressions of class '%s' with a wrong known value on %s (%s), e.g. `%s`: language/clang say %s, cppcheck says %s"
@@ -112,9 +114,10 @@ def group_violations(shards):
     return out
 
 
-def run(tier, platforms, langs):
-    if "native" in platforms and not cprobe.host_is_lp64_linux():
-        platforms = [p for p in platforms if p != "native"]
+def run(tier, pairs):
+    if not cprobe.host_is_lp64_linux():
+        pairs = [pl for pl in pairs if pl[0] != "native"]
+    TIER[0] = tier
     cprobe.private_cppcheck()
 
     def task(t):
@@ -122,7 +125,7 @@ def run(tier, platforms, langs):
             return vlib.tlc_must_pass("CIntLaws", "Empty.cfg", workers=1, timeout=900, xmx="2g")
         return run_shard(t)
 
-    res = cprobe.pmap(task, ["laws"] + [(tier, p, l) for p in platforms for l in langs], workers=cprobe.WORKERS + 1)
+    res = cprobe.pmap(task, ["laws"] + [(tier, p, l) for p, l in pairs], workers=cprobe.WORKERS + 1)
     return res[1:]
 
 
@@ -131,8 +134,7 @@ def main(tier, seed, replay=None):
     vlib.build()
     if replay:
         return do_replay(replay)
-    platforms = QUICK_PLATFORMS if tier == "quick" else ALL_PLATFORMS
-    shards = run(tier, platforms, LANGS)
+    shards = run(tier, QUICK_SHARDS if tier == "quick" else [(p, l) for p in ALL_PLATFORMS for l in LANGS])
     violations = group_violations(shards)
     rc, new, known = vlib.verdict(PID, violations)
     tot = {}
@@ -193,7 +195,7 @@ def main(tier, seed, replay=None):
 def do_replay(path):
     payload = json.load(open(path))
     tier = payload.get("tier", "thorough")
-    shards = run(tier, [payload["platform"]], [payload["lang"]])
+    shards = run(tier, [(payload["platform"], payload["lang"])])
     want = {c["expr"] for c in payload["cases"]}
     bad = [n for sh in shards for n in sh["notable"] if n["verdict"] == "violation" and n["expr"] in want]
     for n in bad[:20]:
